@@ -29,13 +29,13 @@ package cbe
 //@   ensures err == nil ==> !wfailed
 
 //@ func (*Unmarshaler).Unmarshal
-//@   requires _this.config != nil && !_this.config.Debug.PassThroughPanics && _this.decoder.config == _this.config && _this.decoder.reader.config != nil && len(_this.decoder.reader.buffer) >= 16
+//@   requires _this.config != nil && !_this.config.Debug.PassThroughPanics && _this.decoder.config == _this.config && _this.decoder.reader.config == _this.config && len(_this.decoder.reader.buffer) >= 16
 //@   requires reader != nil && pos <= inLen && inLen <= 0x10000000000 && !rfailed && zeroReads < 100 && !evPanic
 //@   modifies all
 //@   ensures err == nil ==> !rfailed && pos == inLen
 
 //@ func (*Unmarshaler).UnmarshalFromDocument
-//@   requires !evPanic && _this.config != nil && !_this.config.Debug.PassThroughPanics && _this.decoder.config == _this.config && _this.decoder.reader.config != nil && len(_this.decoder.reader.buffer) >= 16
+//@   requires !evPanic && _this.config != nil && !_this.config.Debug.PassThroughPanics && _this.decoder.config == _this.config && _this.decoder.reader.config == _this.config && len(_this.decoder.reader.buffer) >= 16
 //@   modifies all
 //@   ensures err == nil ==> !rfailed && pos == inLen
 
